@@ -75,6 +75,24 @@ fn enc_record(c: MessageClass, m: u16) -> serde_json::Value {
             let bytes = t.to_bytes();
             let mut w = [0u8; 2];
             t.write_into(&mut w);
+            // (a destination longer than the field: a header buffer)
+            let mut w20 = [0xeeu8; 20];
+            t.write_into(&mut w20);
+            let roomy_ok = w20[..2] == w && w20[2..].iter().all(|x| *x == 0xee);
+            // responses derived from a request of this method (builder_success / builder_error and what is built on them)
+            let derived_ok = if c == MessageClass::Request {
+                let rq = Message::builder(t, TransactionId::from(6)).build();
+                match Message::from_bytes(&rq) {
+                    Err(_) => false,
+                    Ok(rm) => {
+                        let ty_of = |b: Vec<u8>| Message::from_bytes(&b).ok().map(|p| (p.class(), p.method()));
+                        ty_of(Message::builder_success(&rm).build()) == Some((MessageClass::Success, m))
+                            && ty_of(Message::builder_error(&rm).build()) == Some((MessageClass::Error, m))
+                            && ty_of(Message::bad_request(&rm).build()) == Some((MessageClass::Error, m))
+                            && ty_of(Message::unknown_attributes(&rm, &[AttributeType::new(0x7f00)]).build()) == Some((MessageClass::Error, m))
+                    }
+                }
+            } else { true };
             let built = Message::builder(t, TransactionId::from(5)).build();
             let via_parser = Message::from_bytes(&built).ok().map(|p| (p.class(), p.method(), p.get_type().class(), p.get_type().method()));
             // the type field is written independently of what follows: also with bodies beyond the 16-bit length
@@ -91,7 +109,7 @@ fn enc_record(c: MessageClass, m: u16) -> serde_json::Value {
                     big_ok = big_ok && out[..2] == w && out[4..8] == [0x21, 0x12, 0xa4, 0x42];
                 }
             }
-            let f = if bytes == w && built[..2] == w && big_ok && via_parser == Some((c, m, c, m)) { u16::from_be_bytes(w) as u32 } else { 1 << 20 };
+            let f = if bytes == w && built[..2] == w && big_ok && roomy_ok && derived_ok && via_parser == Some((c, m, c, m)) { u16::from_be_bytes(w) as u32 } else { 1 << 20 };
             json!({"k": "enc", "class": class_name(c), "method": m, "f": f, "bytes": bytes})
         }
     }
